@@ -12,14 +12,14 @@ FILES = ["Base/Prelude.v", "Gen/GenesisCoverage.v", "Model/Genesis.v", "Model/C1
 
 
 # fingerprints of every module's Init/ExportGenesis functions at the tree this check was last audited against
-# (/repo dd0c813).  A difference is not a failure by itself (the models follow the tree through regenerated
+# (/repo 12b82d1).  A difference is not a failure by itself (the models follow the tree through regenerated
 # flags, the differential run exercises the new code) but makes the run search wider: all restart schedules
 # and both genesis permutations for every history, three more seeds.
 PINNED = {"basket": "0ee40130a090ce53", "collectives": "2d19ac0aa570b27d", "custody": "2c894c3038f9258c", "distributor": "eae25c05aac0d30e",
           "ethereum": "639550e96362e0f8", "evidence": "22eac5cf2c4918c8", "feeprocessing": "cce79dc848f4d052", "gov": "7578f02e0c2acc9e",
           "layer2": "73019fd3efb72bae", "multistaking": "58d384bf26cd3e83", "recovery": "d936dd863d66676a", "slashing": "8873ef5ec209dab5",
           "spending": "b8e7645f8bdec399", "staking": "571bfe9082a83232", "tokens": "c4b578b3a4cb4934", "ubi": "a60b59aa000f4956",
-          "upgrade": "d7ff097070e5adc3"}
+          "upgrade": "fd811a79b1d63a00"}
 
 
 def changed_genesis_code():
